@@ -280,6 +280,10 @@ class SG:
             s += "\nsecond line"
         elif k == 2:
             s = "a\n  b\nc" + s
+        elif k == 3:
+            # what a string table of the game may hold besides plain text: message markup, a tab, a form feed, a path
+            at = self.i(0, len(s))
+            s = s[:at] + self.pick(["[CS:G]", "[CR]", "[K]", "\t", "\f", "C:\\dir", "\u2028", "\x0b", '"']) + s[at:]
         return s
 
     def var(self):
